@@ -39,6 +39,17 @@ CHECKS.update({
                      "(also after json.dumps/json.loads) for every type without overlapping unions, and enumerates every (type, value) case; "
                      "the real library must reproduce the documented outer form and load it back to a typed-equal value in all 6 modes. "
                      "Model layouts (name_mapping) and model kinds ride on the C03/C17 machinery."),
+    "C08": dict(technique="TLA+ spec Ctor.tla (Python's def/call binding rules, call plans, default-token look-alike classes) model-checked "
+                          "by TLC; every enumerated signature x skipped x present configuration and default-token pair replayed on real "
+                          "classes with instrumented constructors",
+                category="model_checking", design_ref="6/C08",
+                note="trusts: spec/CtorAxioms.tla (==/hash classes, deep types of default tokens, from Python); constructor counters in "
+                     "__init__/__post_init__/__attrs_post_init__; bounded signature length (3 quick / 4 thorough)",
+                text="TLC proves with Python's own binding rules that a legal constructor call exists for every configuration (positional-"
+                     "only parameters are required fields by adaptix's shape rule) and enumerates all signatures x skipped x present sets "
+                     "and all (pairs of) default tokens of the look-alike universe; on the real code every case must call the constructor "
+                     "exactly once, bind present fields to loaded values, and leave absent fields typed-equal (identical for singletons, "
+                     "fresh for factories) to the declared default, for plain / dataclass / attrs / NamedTuple classes."),
     "C10": dict(technique="TLA+ spec Preds.tla (Match over predicate syntax trees and location stacks) model-checked by TLC: documented "
                           "identities as invariants; per-expression verdict vectors replayed on the real checkers",
                 category="model_checking", design_ref="6/C10",
